@@ -55,6 +55,11 @@ func (c13) Gen(r *Rng, tier string, run int) *Trace {
 			if r.Bool(0.3) {
 				return vNil()
 			}
+		case 6:
+			if r.Bool(0.5) {
+				// things that look like stacks but are none: typed-nil pointers, zero values
+				return vAwk([]int{1, 2, 13, 26, 19, 23}[r.Intn(6)]) // (zero-valued Stack{} / alias: whether that "is a Stack" is unspecified, never generated)
+			}
 		}
 		return g.plain()
 	}
